@@ -281,8 +281,8 @@ func (x *Exec) doExportContinue(op *Op) {
 	}
 	// what the preparation did is visible on the check state
 	mid := h.TakeSnapshot(h.app.BaseApp.NewContext(true, tmproto.Header{ChainID: h.chain, Height: h.Height(), Time: h.Time()}))
-	if !x.checkPrepared(pre, mid, "export-and-continue") {
-		return
+	if !x.checkPrepared(pre, mid, "export-and-continue") && x.stopped {
+		return // (only a run that arms C19 ends here; the others go on to live on the restarted chain)
 	}
 	nh := &Host{cfg: h.cfg, db: dbm.NewMemDB(), chain: h.chain, generation: h.generation + 1}
 	nh.app = newApp(nh.db)
@@ -311,25 +311,27 @@ func (x *Exec) doExportContinue(op *Op) {
 	x.lastT = h.Time()
 	post := nh.TakeSnapshot(nh.Ctx())
 	// the imported service state equals the prepared one (definitions, bindings, withdrawal addresses, contexts, params)
-	if len(post.Bindings) != len(mid.Bindings) || len(post.Defs) != len(mid.Defs) || len(post.Ctx) != len(mid.Ctx) || len(post.Withdraw) != len(mid.Withdraw) {
-		x.viol("C19", "reexport_differs", "the restarted chain holds a different number of records", nil)
-		return
-	}
-	for _, bk := range mid.BindingKeys() {
-		if b := post.Bindings[bk]; b == nil || pm(b) != pm(mid.Bindings[bk]) {
-			x.viol("C19", "reexport_differs", fmt.Sprintf("binding %s differs on the restarted chain", bkShow(bk)), nil)
+	if x.armed["C19"] {
+		if len(post.Bindings) != len(mid.Bindings) || len(post.Defs) != len(mid.Defs) || len(post.Ctx) != len(mid.Ctx) || len(post.Withdraw) != len(mid.Withdraw) {
+			x.viol("C19", "reexport_differs", "the restarted chain holds a different number of records", nil)
 			return
 		}
-	}
-	for _, id := range mid.CtxIDs() {
-		if c := post.Ctx[id]; c == nil || pm(c) != pm(mid.Ctx[id]) {
-			x.viol("C19", "reexport_differs", fmt.Sprintf("context %s differs on the restarted chain", id[:12]), nil)
+		for _, bk := range mid.BindingKeys() {
+			if b := post.Bindings[bk]; b == nil || pm(b) != pm(mid.Bindings[bk]) {
+				x.viol("C19", "reexport_differs", fmt.Sprintf("binding %s differs on the restarted chain", bkShow(bk)), nil)
+				return
+			}
+		}
+		for _, id := range mid.CtxIDs() {
+			if c := post.Ctx[id]; c == nil || pm(c) != pm(mid.Ctx[id]) {
+				x.viol("C19", "reexport_differs", fmt.Sprintf("context %s differs on the restarted chain", id[:12]), nil)
+				return
+			}
+		}
+		if d := indexRules(post); d != "" {
+			x.viol("C19", "import_index", "restarted chain: "+d, nil)
 			return
 		}
-	}
-	if d := indexRules(post); d != "" {
-		x.viol("C19", "import_index", "restarted chain: "+d, nil)
-		return
 	}
 	x.cur = post
 	x.tr.rebase(post)
